@@ -134,6 +134,10 @@ def check(pid, tier):
                     known_seen.setdefault(k["key"], k)
                 else:
                     unknown.setdefault(v["sig"], (r, v))
+        if os.environ.get("VERIF_DUMP_SIGS"):
+            with open(os.environ["VERIF_DUMP_SIGS"], "w") as fh:
+                json.dump({s_: {"run": r_["idx"], "detail": v_["detail"]}
+                           for s_, (r_, v_) in unknown.items()}, fh, indent=1)
         reported = []
         n_min = int(os.environ.get("VERIF_MINIMISE_N", "3"))
         seen_final = set()
